@@ -127,6 +127,9 @@ def part_signing(ctx, wt, m, n, how, thorough):
     if len(sequences) > cap:
         must = [s for s in sequences if len(s) in (m - 1, m)]
         must = [must[i] for i in sorted(ctx.rng.sample(range(len(must)), min(len(must), cap // 2)))]
+        # ceremonies that go on well beyond the threshold (m + 2 signers and more: every cosigner signs)
+        full = [s for s in sequences if len(s) == n and n >= m + 2]
+        must += [full[i] for i in sorted(ctx.rng.sample(range(len(full)), min(len(full), 2 if not thorough else 8)))]
         rest = [s for s in sequences if s not in must]
         sequences = must + [rest[i] for i in sorted(ctx.rng.sample(range(len(rest)), min(cap - len(must), len(rest))))]
     f26 = next((f for f in ctx.known if f['id'] == 'F26'), None)
@@ -264,7 +267,7 @@ def part_signing(ctx, wt, m, n, how, thorough):
 def run(ctx):
     install_fake_service()
     T = ctx.thorough
-    combos = [(2, 2), (2, 3)] if not T else [(1, 2), (2, 2), (1, 3), (2, 3), (3, 3), (2, 4), (3, 5)]
+    combos = [(2, 2), (2, 3), (2, 5)] if not T else [(1, 2), (2, 2), (1, 3), (2, 3), (3, 3), (2, 4), (3, 5), (2, 5)]
     rp = getattr(ctx, 'replay_obj', None)
     for wt in ('legacy', 'p2sh-segwit', 'segwit'):
         for (m, n) in combos:
@@ -274,6 +277,8 @@ def run(ctx):
                 if not rp or rp['replay'].get('op') == 'address':
                     part_addresses(ctx, wt, m, n, T)
             for how in ('object', 'dict', 'raw'):
+                if (m, n) == (2, 5) and not T and how != 'dict':
+                    continue        # quick tier: the long ceremonies of 2-of-5 through the dict hand-off only
                 if rp and rp['replay'].get('handoff') not in (None, how):
                     continue
                 if rp and rp['replay'].get('op') == 'address' and 'handoff' not in rp['replay']:
